@@ -95,8 +95,19 @@ def gen_spec(seed):
                 stmts.append(("dictop", rng.choice(["update", "lookup"])))
             else:
                 stmts.append(("move", rng.randrange(n), rng.randrange(n)))
+    twomaps = rng.random() < 0.12
+    # counted variables (like ebpfcat's own `counters = globalVar("64I")`):
+    # never touched by the program, declared somewhere among the others;
+    # their whole extent must stay clear of every other variable
+    rb = random.Random(seed * 7919 + 13)
+    blocks = []
+    if rb.random() < 0.45:
+        for j in range(rb.randint(1, 2)):
+            blocks.append(dict(kind=rb.choice(["local", "array"]),
+                               fmt=rb.choice(["4H", "2I", "3B", "4I", "2Q"]),
+                               at=rb.randint(0, n), name=f"blk{j}"))
     return dict(seed=seed, vars=V, subs=subs, dict=dct, stmts=stmts,
-                twomaps=rng.random() < 0.12)
+                twomaps=twomaps, blocks=blocks)
 
 
 def build_and_emit(spec):
@@ -116,7 +127,13 @@ def build_and_emit(spec):
     hmap = hm.HashMap()
     if any(v["kind"] == "hash" for v in V):
         ns["hmap"] = hmap
+    def declare_blocks(at):
+        for b in spec.get("blocks", []):
+            if b["at"] == at:
+                ns[b["name"]] = ebpf.LocalVar(b["fmt"]) \
+                    if b["kind"] == "local" else vm.globalVar(b["fmt"])
     for k, v in enumerate(V):
+        declare_blocks(k)
         ns[f"in{k}"] = io.globalVar("q")
         ns[f"in2_{k}"] = io.globalVar("q")
         ns[f"out{k}"] = io.globalVar("q" if v["fmt"].islower() else "Q")
@@ -126,6 +143,7 @@ def build_and_emit(spec):
             ns[v["name"]] = vm.globalVar(v["fmt"])
         elif v["kind"] == "hash":
             ns[v["name"]] = hmap.globalVar(v["fmt"])
+    declare_blocks(len(V))
     ns["scr"] = io.globalVar("q")
     subobjs = {}
     for sc in spec["subs"]:
@@ -211,6 +229,43 @@ def addresses(spec, e, subobjs):
     return out
 
 
+def check_blocks(spec, e, name, seed, res):
+    """layout obligation (interval arithmetic on the generator's own
+    addresses, no solver): the declared extent of a counted variable is
+    disjoint from every other variable of the same map / the main frame"""
+    import struct
+    import ebpfcat.arraymap as am
+    import ebpfcat.ebpf as eb
+
+    def size(fmt):
+        return 8 if fmt == "x" else struct.calcsize(fmt)
+    for b in spec.get("blocks", []):
+        desc = type(e).__dict__[b["name"]]
+        spans = []
+        for n, d in type(e).__dict__.items():
+            if b["kind"] == "local" and isinstance(d, eb.LocalVar):
+                spans.append((n, d.fmt_addr(e)[1], size(d.fmt)))
+            elif b["kind"] == "array" and isinstance(d, am.ArrayGlobalVarDesc) \
+                    and d.map is desc.map:
+                spans.append((n, e.__dict__[n], size(d.fmt)))
+        mine = [x for x in spans if x[0] == b["name"]][0]
+        for n, a, w in spans:
+            if n == b["name"]:
+                continue
+            res["obligations"] += 1
+            if a < mine[1] + mine[2] and mine[1] < a + w:
+                res["violations"].append(dict(
+                    signature=f"C04|layout|counted {b['kind']} variable "
+                              "overlaps another variable",
+                    what=f"{name}: {b['kind']} variable {b['name']} "
+                         f"({b['fmt']}) occupies [{mine[1]}, "
+                         f"{mine[1] + mine[2]}) and overlaps {n} at [{a}, "
+                         f"{a + w}): writing one changes the other",
+                    witness=dict(spec=spec), replay=dict(seed=seed)))
+            else:
+                res["discharged"] += 1
+
+
 def check_program(seed, q, res):
     from ..bpfsym import Env, bv, decode, load, merge, run
     spec = gen_spec(seed)
@@ -227,6 +282,7 @@ def check_program(seed, q, res):
             replay=dict(seed=seed)))
         return
     res["programs"] += 1
+    check_blocks(spec, e, name, seed, res)
     io = [m for m in maps if m.kind == "array"][:1]
     if len(io) != 1:
         res["errors"].append(f"{name}: io map not found")
